@@ -4,15 +4,7 @@ wall_vertical[y][x] (h rows of w-1) / wall_horizontal[y][x] (h-1 rows of w): 1 =
 below cell (y, x); mark[y][x]: 0 empty, 1 circle (on the route), 2 triangle (off the route); start / goal: (y, x).
 A well-formed puzzle has S and G in two different cells of the board (Rules_nurimaze.v); the search families also
 contain problems with S = G or with exactly one of S, G off the board (no solution by the rules; the solver agrees);
-problems with both S and G off the board are malformed and only appear in the program-capture tie.
-
-cspuz/puzzle/nurimaze.py imports numpy at module level although only problem_to_pzv_url uses it; numpy is not
-installed in the verification environment, so the module is imported once, here, with an empty stand-in for numpy
-that is removed from sys.modules again right afterwards (solve_nurimaze itself never touches it)."""
-import importlib
-import sys
-import types
-
+problems with both S and G off the board are malformed and only appear in the program-capture tie."""
 import c11lib as L
 
 NAME = "nurimaze"
@@ -20,27 +12,6 @@ MODULE = "cspuz.puzzle.nurimaze"
 FUNC = "solve_nurimaze"
 TIER1 = ("Nurimaze", "solve_nurimaze_model")
 MAX_ANSWERS = 70000
-
-
-def _import_module():
-    if MODULE in sys.modules:
-        return
-    try:
-        import numpy  # noqa: F401
-        have = True
-    except ImportError:
-        have = False
-    if have:
-        importlib.import_module(MODULE)
-        return
-    sys.modules["numpy"] = types.ModuleType("numpy")
-    try:
-        importlib.import_module(MODULE)
-    finally:
-        del sys.modules["numpy"]
-
-
-_import_module()
 
 
 def call(mod, pb):
